@@ -301,6 +301,10 @@ class RandomGen(object):
     if r < 0.6:
       return '%s %s %s' % (self.expr(ctx, d + 1), self.r.choice(['+', '-']), self.expr(ctx, d + 1))
     if r < 0.68:
+      if (self.has('boolop') or self.has('boolop_pure')) and self.r.random() < 0.25:
+        # a logical expression as operand of an arithmetic unary operator
+        self.tags.add('boolop')
+        return '-%s' % self.cond(ctx, 1) if self.r.random() < 0.7 else '+(not %s)' % self.cond(ctx, 1)
       return '%s * %d' % (self.expr(ctx, d + 1), self.r.randint(2, 3))
     if r < 0.76 and (self.has('ifexp') or self.has('ifexp_pure')):
       self.tags.add('ifexp')
